@@ -75,6 +75,9 @@ type shapeA struct {
 		Host string `flag:"|host|h,o|Nested string with commas"`
 	}
 	X string `flag:"x"`
+	// more one-letter switches: a token made of their letters (-dv, -qq) names no flag
+	Quiet bool `flag:"q"`
+	V     bool `flag:"v"`
 }
 
 type shapeB struct {
@@ -106,6 +109,8 @@ var defsA = []flagDef{
 	{"port", "int", "80", func(p any) any { return p.(*shapeA).Nested.Port }},
 	{"host", "string", "h,o", func(p any) any { return p.(*shapeA).Nested.Host }},
 	{"x", "string", "", func(p any) any { return p.(*shapeA).X }},
+	{"q", "bool", "", func(p any) any { return p.(*shapeA).Quiet }},
+	{"v", "bool", "", func(p any) any { return p.(*shapeA).V }},
 }
 
 var defsB = []flagDef{
@@ -438,7 +443,9 @@ func genTokens(defs []flagDef, shape int) *rapid.Generator[[]string] {
 		names = append(names, d.name)
 	}
 	nearMiss := []string{"-", "--", "---x", "---", "-=", "-x=", "--=v", "-=v", "=", "--x--", "-n=", "-zzz", "--zzz=1", "-nn", "-N", " -n", "-n ", "-help=maybe", "--d=", "-d=false", "-config", "-config=", "--config=" + "/nonexistent/c.json",
-		"", "x", "-é", "--é=1", "-1", "-1=2", "-a-b", "--a-b=--", "-a", "-a=b", "-alpha", "-beta", "-beta=0", "--beta", "-verbose=false", "-\x00", "-n\x00=1"}
+		"", "x", "-é", "--é=1", "-1", "-1=2", "-a-b", "--a-b=--", "-a", "-a=b", "-alpha", "-beta", "-beta=0", "--beta", "-verbose=false", "-\x00", "-n\x00=1",
+		// tokens made of the letters of one-letter switches (getopt would take them for a cluster; this grammar has none)
+		"-dv", "-vd", "-dq", "-qq", "-dd", "-dvq", "--dv", "-dn", "-d5", "-dv=true", "-vvv", "-qv=0"}
 	flagTok := rapid.Custom(func(t *rapid.T) []string {
 		name := rapid.SampledFrom(names).Draw(t, "name")
 		kind, _ := kindOf(defs, name)
